@@ -42,6 +42,10 @@ def _run(tape):
     kind = tape.draw(8)
     sc = E.Scenario(tape, force_dedicated=True)
     sc.allow_kill_failure = True
+    # Ctrl-C in the terminal at a tape-chosen moment: SIGINT reaches the parent and every worker (the run is abandoned)
+    sc.sigint_at = tape.choice([None, None, None, 0.3, 1.7, 4.2]) if not placed or tape.draw(3) == 2 else None
+    if sc.sigint_at is not None:
+        run.probe('sigint_to_the_process_group')
     worker_faults = ['worker_hang', 'worker_exit', 'worker_abort', 'worker_late_answer', 'worker_late_death']
     if placed:
         sc.behaviours = ['equal'] * sc.n
